@@ -1087,6 +1087,35 @@ pub fn json_line(rng: &mut Rng, td: &TableDefinition) -> (String, String) {
 pub fn tpl_index(re: &str) -> Option<usize> { TEMPLATES.iter().position(|t| t.re == re) }
 
 /// generated (definition, line) pairs; `json_share` in 0..=10
+/// the parsed definition must say what the text says: column i is named `c<i>`, has the written type, and refers to
+/// exactly the written pattern names / group indexes / JSON steps, in the written order (the generator knows what it
+/// wrote; everything after this point — extraction, the model — works from the parsed definition)
+pub fn check_def_faithful(run: &mut Run, g: &GDef, td: &TableDefinition, text: &str) {
+    run.oracle_checks += 1;
+    let desc = format!("definition: {}", text.replace('\n', " "));
+    if td.columns.len() != g.cols.len() {
+        run.fail(desc, "definition-column-count", format!("{} columns written, {} in the parsed definition", g.cols.len(), td.columns.len()));
+        return;
+    }
+    for (i, (gc, c)) in g.cols.iter().zip(td.columns.iter()).enumerate() {
+        let written = match &gc.parsing {
+            GParsing::Regex(n, k) => format!("{}[{}]", n, k),
+            GParsing::Inline(_, _) => "inline".to_owned(),
+            GParsing::Multi(rs) => rs.iter().map(|(n, k)| format!("{}[{}]", n, k)).collect::<Vec<_>>().join(","),
+            GParsing::Json(steps) => format!("json{}", steps.iter().map(|s| match s { GStep::Field(f) => format!(".{}", f), GStep::Index(i) => format!("[{}]", i) }).collect::<String>()),
+        };
+        let parsed = match &c.parsing {
+            ColumnParsing::Regex(r) => if matches!(gc.parsing, GParsing::Inline(_, _)) { "inline".to_owned() } else { format!("{}[{}]", r.pattern_name, r.group_index) },
+            ColumnParsing::MultiRegex(rs) => rs.iter().map(|r| format!("{}[{}]", r.pattern_name, r.group_index)).collect::<Vec<_>>().join(","),
+            ColumnParsing::Json(a) => format!("json{}", json_steps(a).iter().map(|s| match s { GStep::Field(f) => format!(".{}", f), GStep::Index(i) => format!("[{}]", i) }).collect::<String>()),
+        };
+        if c.name != format!("c{}", i) || c.column_type != gc.ty || written != parsed {
+            run.fail(desc, "definition-not-as-written", format!("column {} is written `{} => c{} {:?}` but the parsed definition has `{} => {} {:?}`", i, written, i, gc.ty, parsed, c.name, c.column_type));
+            return;
+        }
+    }
+}
+
 pub fn random_cases(run: &mut Run, rng: &mut Rng, ndefs: usize, lines_per_def: usize, json_share: u64) {
     for _ in 0..ndefs {
         let g = gen_def(rng, json_share);
@@ -1096,6 +1125,7 @@ pub fn random_cases(run: &mut Run, rng: &mut Rng, ndefs: usize, lines_per_def: u
             Err(e) => { run.fail(format!("definition: {}", text.replace('\n', " ")), "create-table-rejected", e); continue; }
         };
         run.count("definitions");
+        check_def_faithful(run, &g, &td, &text);
         let any_json = td.columns.iter().any(|c| matches!(c.parsing, ColumnParsing::Json(_)));
         for _ in 0..lines_per_def {
             let (line, shape) = if any_json && !rng.chance(1, 6) { json_line(rng, &td) } else { regex_line(rng, &td, &tpl_index) };
@@ -1136,6 +1166,7 @@ pub fn sweep(run: &mut Run, rng: &mut Rng, lines_per_def: usize) {
                     Err(e) => { run.fail(format!("definition: {}", text.replace('\n', " ")), "create-table-rejected", e); continue; }
                 };
                 run.count("definitions");
+                check_def_faithful(run, &gd, &td, &text);
                 for _ in 0..lines_per_def {
                     let (line, shape) = regex_line(rng, &td, &tpl_index);
                     run_case(run, &td, &text, &line, &shape);
